@@ -106,6 +106,7 @@ class World(object):
     self.instant_stub_events = 0
     self.expect_reject = []
     self.pool_closed_seen = False
+    self.pool_close_calls = 0
     self.peak_existing = 0
     self.ghosts = 0
     self.issued_this_instant = 0
@@ -251,6 +252,17 @@ class World(object):
         elif names.get(wid) not in ('ServiceClosedError', 'TimeoutError', None):
           REC.violation('C07', 'waiter_wrong_error_on_close',
                         'waiter %s failed with %s on pool close' % (wid, names.get(wid)))
+    # (g') whenever the pool decides to close (its Close() ran in this instant),
+    # every request that was in its queue is failed -- also while the pool's own
+    # Open() is still connecting
+    if prev and prev['pool_open'] and self.pool_close_calls > prev.get('close_calls', 0):
+      for wid in prev.get('queued_ids', ()):
+        w = tr.calls.get(wid)
+        if w is not None and not w.completions and not w.arrivals:
+          REC.violation('C07', 'waiter_not_failed_on_close',
+                        'the pool closed itself but request %s, which was in its queue, was neither failed nor started' % wid,
+                        {'queued': True})
+          break
     if pool_open and not self.pool_closed_seen:
       for c in recent:
         if names[c.id] == 'TimeoutError' and not c.arrivals:
@@ -277,10 +289,22 @@ class World(object):
     self.snap = {'pool_open': pool_open and not self.pool_closed_seen, 'opening': bool(opening),
                  'at_cap': (not opening) and len(existing) >= self.max and len(busy) == len(existing),
                  'n_waiting': len(waiting), 'waiting_ids': [c.id for c in waiting],
-                 'steps': self.loop.steps, 'clean': not opening}
+                 'steps': self.loop.steps, 'clean': not opening,
+                 'close_calls': self.pool_close_calls, 'queued_ids': self.queued_ids()}
     self.own_issued = 0
     self.issued_this_instant = 0
     self.instant_stub_events = 0
+
+  def queued_ids(self):
+    """Call ids of the live entries of the pool's own waiter queue."""
+    out = []
+    try:
+      for sink_stack, msg, _, _ in list(getattr(self.pool, '_waiters', ())):
+        if sink_stack.Any() and getattr(msg, 'args', None):
+          out.append(msg.args[0])
+    except Exception:
+      return []
+    return out
 
   def run(self):
     import gevent
@@ -344,6 +368,7 @@ class World(object):
 
     def closing(*a, **kw):
       world.pool_closed_seen = True
+      world.pool_close_calls += 1
       return orig_close(*a, **kw)
     self.pool.Close = closing
     disp.Open().wait()
